@@ -783,6 +783,9 @@ def prop_C14(repo, tier):
         res.add('ENVELOPE-UNTOUCHED', f'{cname}.merge', 'effects on envelope children', True)
     add_findings(res, results, {'FRAME', 'IDX-DOMAIN', 'IDX-FRESH'}, want=lambda c, f: schema.ROLES[c][0] in ('ROREPLACE', 'END'),
                  as_rule=lambda f: 'ROOT-WRITERS')
+    # an exception between the removal and the re-insertion at the root leaves the envelope without its running-order element
+    add_findings(res, results, {'VALIDATE-BEFORE-MUTATE'}, want=lambda c, f: schema.ROLES[c][0] in ('ROREPLACE', 'END'),
+                 as_rule=lambda f: 'ROOT-WRITERS')
     add_findings(res, results, {'FRAME'}, want=lambda c, f: 'ro.xml)' in f['detail'] or "parent=ro.xml" in f['detail'], as_rule=lambda f: 'ENVELOPE-UNTOUCHED')
     res.rules['NO-HIDDEN-STATE'] = 'no merge records its effect on the Python objects instead of the document (it would not be in the serialisation)'
     res.add('NO-HIDDEN-STATE', 'merges', 'attribute stores on MOS objects during a merge', True)
